@@ -169,6 +169,10 @@ def compare_shard(suite, shard, outs, stats, divs, maxdiv=200, collect=None, sat
         got.append(i)
         if not broken and m != i and len(divs) < maxdiv:
             divs.append(Div(suite, header, cfg, ops, len(ops), 'tie', m, i))
+        if mi < len(ml) and ml[mi].startswith('maps='):
+            # vmem: mappings of the buffer's shared object that remain after it was released
+            m, mi = nxt(ml, mi); i, ii = nxt(il, ii)
+            if m != i and len(divs) < maxdiv: divs.append(Div(suite, header, cfg, ops, len(ops), 'spec', m, i))
 
 def run(ctx, seqrun, suites, collect=None, mode='seq', satlog=None):
     """suites: list of (name, model-generator-args). Returns (stats, divergences)."""
